@@ -7,6 +7,8 @@ def classify(ev, r):
     if r.violation and "Invariant" in r.violation:
         return "invariant:" + r.violation.split()[2]
     k = ev.get("e", "?")
+    if k == "CC":
+        return "CC-%s-%s" % (ev.get("mode"), "crash" if "crash" in ev else ("accepted" if ev.get("res") else "rejected"))
     if k in ("VMask", "VPriv", "VSec", "UpdKey"):
         honest = ev.get("mut") == "none" or not ev.get("applied", True)
         if "exc" in ev:
